@@ -155,6 +155,8 @@ def run(ctx):
     ctx.build_lib()
     h = ctx.build_harness('h_sock')
     modes = MODES_Q if quick else MODES_T
+    if os.environ.get('VERIF_C10_MODES'):        # experiments only, e.g. "epoll:40,et:30"
+        modes = [(m.split(':')[0], int(m.split(':')[1])) for m in os.environ['VERIF_C10_MODES'].split(',')]
 
     def record(m):
         prim, execs = m
@@ -192,7 +194,7 @@ def run(ctx):
     ctx.traces_ok = ok_a            # an execution counts once
     if not ctx.violations:
         missing = [k for k, v in cov.items() if v == 0]
-        if missing:
+        if missing and not os.environ.get('VERIF_C10_MODES'):
             raise vtlib.InfraError(f'conformance run is vacuous: nothing recorded for {missing}')
     if futs is not None:
         _mc_finish(ctx, futs)
